@@ -114,10 +114,10 @@ refuses" (that is C06).  Both are checked on every run by `Oracle.Hist.c05` on t
 
 /-- non-vacuity: a failing template (`<a href="`, ends inside an attribute) and its second execution -/
 example :
-    let w := (Api.step (Api.step (Api.step { v := liteValidators } (.new 0 "t")).1
+    let w := (Api.step (Api.step (Api.step { v := liteValidators, fuel := 40 } (.new 0 "t")).1
       (.parse 0 [{ name := "t", root := .cons (.text 0 [60, 97, 32, 104, 114, 101, 102, 61, 34]) .nil }])).1
       (.exec 0 .noValue)).1
     (Api.step w (.exec 0 .noValue)).2.str = "err:analysis:ErrEndContext -" := by
-  decide
+  decide +kernel
 
 end SafeHtml.Props.C05
